@@ -3,7 +3,7 @@ import SleapVerif.Model.Peaks
 /-!
 Driver for C07.  One line in, one line out.
 
-`global <thr> <r> <S> <C> <h> <w> <n> v_1 … v_n`  (row-major (S,C,h,w), `r = 0` = no refinement)
+`global <thr> <p> <S> <C> <h> <w> <n> v_1 … v_n`  (row-major (S,C,h,w), `p` = integral_patch_size, `p = 0` = no refinement)
   → per flat index `k = s*C + c` ten tokens:
     `rx ry rval  ax ay aval  px py  qx qy`
     r* = repaired rough (flat argmax), a* = rough as on the pinned tree (separate argmaxes),
